@@ -33,7 +33,10 @@ def gen(rnd, budget, depth=0):
     if r < 0.62:
         op = rnd.choice(["+", "-", "*", "*", "/", "/", "+", "-", "**"])
         if op == "**":
-            return ("bin", "**", gen(rnd, budget - 2, depth + 1),
+            base = gen(rnd, budget - 2, depth + 1)
+            if rnd.random() < 0.3:
+                base = ("bin", "**", base, ("lit", rnd.choice([2, 3])))
+            return ("bin", "**", base,
                     ("lit", rnd.choice([0, 1, 2, 2, 3])))
         if op == "/":
             # divisor mostly a non-zero literal so valuations are defined
@@ -133,15 +136,24 @@ def make_pair(rnd, budget):
 
 
 # ------------------------------------------------------------------ valuations
-def valuations(vs):
+def valuations(vs, arrays=True):
+    """All valuations of the scalar variables, for each of three array
+    contents (the evaluators read ix.SALT)."""
     vs = sorted(vs)
-    if not vs:
-        yield {}
-        return
-    for tup in itertools.product(RANGE, repeat=len(vs)):
-        yield dict(zip(vs, tup))
-    for big in BIG:
-        yield dict(zip(vs, big))
+    for salt in ((0, 1, 2) if arrays else (0,)):
+        ix.SALT[0] = salt
+        if not vs:
+            yield {"__salt": salt}
+            continue
+        for tup in itertools.product(RANGE, repeat=len(vs)):
+            d = dict(zip(vs, tup))
+            d["__salt"] = salt
+            yield d
+        for big in BIG:
+            d = dict(zip(vs, big))
+            d["__salt"] = salt
+            yield d
+    ix.SALT[0] = 0
 
 
 def find_counterexample(e1, e2, want_equal):
@@ -498,6 +510,7 @@ def check_expand(before, after):
 def validate_evaluator(ctx, rnd, n=120):
     """Compare vf.iexpr.ev with gfortran on n (expression, valuation) pairs."""
     from vf import fx
+    ix.SALT[0] = 0
     items = []
     while len(items) < n:
         e = gen(rnd, rnd.randint(2, 9))
@@ -582,6 +595,17 @@ ANCHORS = [
      ("call", "MOD", [("var", "i"), L(2)]), "anchor"),
     (B("+", B("*", L(2), ("var", "i")), L(1)), ("var", "n"), "anchor"),
     (B("*", ("var", "i"), ("var", "i")), L(4), "anchor"),
+    # power of a power (left-nested **): grouping must survive the writer
+    (B("**", B("**", ("var", "i"), L(2)), L(3)),
+     B("**", ("var", "i"), L(8)), "anchor"),
+    (B("**", B("**", ("var", "i"), L(2)), L(3)),
+     B("**", ("var", "i"), L(6)), "anchor"),
+    (B("**", B("**", ("var", "j"), L(3)), L(2)),
+     B("*", B("**", ("var", "j"), L(3)), B("**", ("var", "j"), L(3))),
+     "anchor"),
+    (B("**", ("var", "i"), B("**", L(2), L(3))),
+     B("**", ("var", "i"), L(8)), "anchor"),
+    (("arr", "ia", [L(1)]), ("arr", "ia", [L(2)]), "anchor"),
 ]
 
 
